@@ -104,7 +104,84 @@ fn dup_admits(d: Duplicate, l: Level) -> bool {
 
 // units: routing = spec x primary (10); duplication = 7 (stderr setting) + 2 (adapt)
 fn units(_tier: &str) -> usize {
-    specs().len() * 2 + DUPS.len() + 2 + specs().len()
+    specs().len() * 2 + DUPS.len() + 2 + specs().len() + 1
+}
+
+/// Routing while one of the named writers fails: the additional FileLogWriter F writes to a full
+/// device (its file is a symlink to /dev/full, every write really fails with ENOSPC). What is
+/// addressed to F alone reaches nobody else; what is addressed to F and others reaches the others
+/// exactly once; the default channel gets only what names _Default.
+fn routing_with_failing_writer() -> Result<(u64, u64), Fail> {
+    let sc = Scratch::new("c13f");
+    let err = crate::scratch::root().join("err.log");
+    std::fs::write(&err, b"").ok();
+    let mk = |dir: &std::path::Path, base: &str| {
+        FileLogWriter::builder(FileSpec::default().directory(dir).basename(base).suppress_timestamp()).format(lg::payload_format).try_build().map_err(|e| Fail {
+            clause: "machinery",
+            cause: "flw".into(),
+            detail: e.to_string(),
+        })
+    };
+    let (fdir, bdir, pdir) = (sc.path().join("f"), sc.path().join("b"), sc.path().join("p"));
+    std::fs::create_dir_all(&fdir).ok();
+    std::os::unix::fs::symlink("/dev/full", fdir.join("f.log")).map_err(|e| Fail {
+        clause: "machinery",
+        cause: "symlink".into(),
+        detail: e.to_string(),
+    })?;
+    let (f, b) = (mk(&fdir, "f")?, mk(&bdir, "b")?);
+    let (logger, handle) = Logger::with(flexi_logger::LogSpecification::trace())
+        .format(lg::payload_format)
+        .log_to_file(FileSpec::default().directory(&pdir).basename("p").suppress_timestamp())
+        .error_channel(ErrorChannel::File(err.clone()))
+        .add_writer("F", Box::new(f))
+        .add_writer("B", Box::new(b))
+        .build()
+        .map_err(|e| Fail {
+            clause: "machinery",
+            cause: "build".into(),
+            detail: e.to_string(),
+        })?;
+    let lines = |p: &std::path::Path| -> Vec<String> { String::from_utf8_lossy(&std::fs::read(p).unwrap_or_default()).lines().map(String::from).collect() };
+    let (mut want_b, mut want_p) = (Vec::new(), Vec::new());
+    let mut n = 0;
+    for (i, target) in ["{F}", "{B}", "{F,B}", "{B,F}", "{F,_Default}", "{_Default,F}", "{F,B,_Default}", "plain", "{F}", "{B}"].iter().enumerate() {
+        let msg = format!("m{i}");
+        if target.contains('B') {
+            want_b.push(msg.clone());
+        }
+        if target.contains("_Default") || !target.starts_with('{') {
+            want_p.push(msg.clone());
+        }
+        log_rec(&*logger, Level::Info, target, Some("m"), &msg);
+        n += 1;
+    }
+    handle.shutdown();
+    drop(logger);
+    drop(handle);
+    let (got_b, got_p) = (lines(&bdir.join("b.log")), lines(&pdir.join("p.log")));
+    if got_b != want_b {
+        return Err(Fail {
+            clause: "delivered-to-unnamed",
+            cause: "failing-sibling/file".into(),
+            detail: format!("writer F fails with ENOSPC on every write; writer B received {got_b:?}, addressed to it were {want_b:?}"),
+        });
+    }
+    if got_p != want_p {
+        return Err(Fail {
+            clause: "default-wrong",
+            cause: "failing-sibling/default".into(),
+            detail: format!("writer F fails with ENOSPC on every write; the default channel received {got_p:?}, addressed to it were {want_p:?}"),
+        });
+    }
+    if lg::read_errchan(&err).is_empty() {
+        return Err(Fail {
+            clause: "unknown-not-reported",
+            cause: "failing-sibling/errchan".into(),
+            detail: "the failing writes of F were not reported on the error channel".into(),
+        });
+    }
+    Ok((n, n))
 }
 fn bounds(_tier: &str) -> Value {
     json!({"brace_lists": brace_lists().len(), "plain_targets": PLAIN.len(), "levels": 5, "module_paths": 3, "specifications": specs().len(), "primary_kinds": 2, "duplicate_grid": "7x7x5 + 2x49x5"})
@@ -391,7 +468,9 @@ fn duplication_adapt(stderr: bool) -> Result<u64, Fail> {
 fn run_unit(tier: &str, unit: usize, out: &mut Out) {
     THOROUGH.store(tier != "quick", std::sync::atomic::Ordering::Relaxed);
     let ns = specs().len() * 2;
-    let r: Ran<Result<(u64, u64), Fail>> = if unit >= ns + DUPS.len() + 2 {
+    let r: Ran<Result<(u64, u64), Fail>> = if unit >= ns + DUPS.len() + 2 + specs().len() {
+        run_isolated(Duration::from_secs(120), routing_with_failing_writer)
+    } else if unit >= ns + DUPS.len() + 2 {
         let i = unit - ns - DUPS.len() - 2;
         run_isolated(Duration::from_secs(120), move || routing(i, false, false))
     } else if unit < ns {
